@@ -185,6 +185,48 @@ func c03Gen(tier string, rng *rand.Rand, emit func(interface{})) {
 		}
 		emit(c03Family(rng, x1, x2, []c03Limits{def}, it%3 == 0))
 	}
+	// (b2) both sides of the switch-over at small limits, exhaustively in the sizes: for (EL,TL) in
+	// (3,2), (2,3), (1,1), (0,0) every (n1,n2) with sizes within one of the limit, tied and untied data
+	for _, lm := range []c03Limits{{3, 2}, {2, 3}, {1, 1}, {0, 0}} {
+		for _, tied := range []bool{false, true} {
+			lim := lm.el
+			if tied {
+				lim = lm.tl
+			}
+			for n1 := lim - 1; n1 <= lim+1; n1++ {
+				for n2 := lim - 1; n2 <= lim+1; n2++ {
+					if n1 < 1 || n2 < 1 || (tied && n1+n2 < 3) {
+						continue
+					}
+					var x1, x2 []float64
+					if tied {
+						for i := 0; i < n1; i++ {
+							x1 = append(x1, float64(rng.Intn(3)))
+						}
+						for i := 0; i < n2; i++ {
+							x2 = append(x2, float64(rng.Intn(3)+1))
+						}
+						x1[0], x2[0] = 1, 1
+						if n1 > 1 {
+							x1[1] = 0
+						} else {
+							x2[1] = 3
+						}
+					} else {
+						perm := rng.Perm(n1 + n2)
+						for i, q := range perm {
+							if i < n1 {
+								x1 = append(x1, float64(q))
+							} else {
+								x2 = append(x2, float64(q))
+							}
+						}
+					}
+					emit(c03Family(rng, x1, x2, []c03Limits{lm, def, {1000000, 1000000}}, false))
+				}
+			}
+		}
+	}
 	// (c) large samples (normal approximation), with and without ties, up to 600
 	nLarge := 40
 	if thorough {
